@@ -76,18 +76,27 @@ def gen_menu_tree(rng, dirsel, feature=None):
     visible_after_cap = [n for n in names if not (n in caps and dict(caps[n]["fields"]).get("Type") in ("X", "-"))]
     linkfiles = {}
     touched = set()
+    base_sel = "" if dirsel == "/" else dirsel
     # hidden by .cap or (below) by a link block: later blocks may name the file again, it stays hidden
     link_hidden = set(n for n in names if n not in visible_after_cap)
     for lf in sorted(rng.sample([".Links", ".names"], rng.randrange(1, 3))):
         blocks = []
         for _ in range(rng.randrange(1, 5)):
             # a file is addressed by one block — or by several once a block has hidden it (it stays hidden)
-            cands = [n for n in names if n not in touched or n in link_hidden]
+            # usually one block per file; sometimes a second one (same or another link file: later blocks see
+            # the effect of earlier ones, link files are read in name order)
+            cands = [n for n in names if n not in touched or n in link_hidden or rng.random() < 0.25]
             ov = bool(cands) and rng.random() < 0.55
             b = c08gen.gen_block(rng, cands, override=ov)
+            if not ov and touched and rng.random() < 0.3:
+                # a curated link whose absolute Path is the selector of a file that other blocks hide or override:
+                # it is an entry of its own, whatever happens to the file's entry
+                t = rng.choice(sorted(touched))
+                b = {"comments": [], "fields": [("Name", "Link to " + t), ("Type", FILES[t][0]),
+                                                ("Path", base_sel + "/" + t), ("Host", "+"), ("Port", "+")]}
             d = dict(b["fields"])
             if ov:
-                t = d["Path"][2:]
+                t = d["Path"][2:].rstrip("/")
                 touched.add(t)
                 if t not in visible_after_cap:
                     feats.add("cap-hidden-relisted")
@@ -113,7 +122,8 @@ def gen_menu_tree(rng, dirsel, feature=None):
 def dedicated(dirsel="/d"):
     """One scenario per documented clause / known discrepancy."""
     f = lambda p, d: {"path": "d/" + p, "data": d}  # noqa: E731
-    base = [f("b.txt", "b\n"), f("fred", "f\n"), f("zeta.txt", "z\n")]
+    base = [f("b.txt", "b\n"), f("fred", "f\n"), f("zeta.txt", "z\n"), {"path": "d/sub", "kind": "dir"},
+            f("sub/inner.txt", "inner\n")]
     B = lambda **kw: {"comments": [], "fields": list(kw.items())}  # noqa: E731
     out = []
 
@@ -123,7 +133,7 @@ def dedicated(dirsel="/d"):
             tree.append(f(k, c08gen.render_linkfile(blocks)))
         for k, b in (caps or {}).items():
             tree.append(f(".cap/" + k, c08gen.render_block(b)))
-        out.append({"tree": tree, "dir": "/d", "names": ["b.txt", "fred", "zeta.txt"], "sidecars": {}, "caps": caps or {},
+        out.append({"tree": tree, "dir": "/d", "names": ["b.txt", "fred", "sub", "zeta.txt"], "sidecars": {}, "caps": caps or {},
                     "linkfiles": lfs, "features": set(feats), "label": name})
     sc("hide-X", {".names": [B(Type="X", Path="./fred")]})
     sc("hide-dash", {".names": [B(Path="./fred", Type="-")]}, feats=["dash"])
@@ -136,9 +146,21 @@ def dedicated(dirsel="/d"):
     sc("order", {".names": [B(Path="./b.txt", Numb="2"), B(Path="./zeta.txt", Numb="1"), B(Path="./fred", Numb="-1")],
                  ".Links": [B(Name="Aardvark", Type="0", Path="/x", Host="+", Port="+"),
                             B(Name="Neg two", Type="0", Path="/y", Host="+", Port="+", Numb="-2")]})
+    sc("hide-directory-then-title", {".Links": [B(Type="-", Path="./sub/")],
+                                     ".names": [B(Name="Internal area", Path="./sub/"), B(Name="Bee", Path="./b.txt")]})
+    sc("hide-then-others-same-file", {".names": [B(Type="X", Path="./fred/"), B(Path="./fred", Name="Fred again"),
+                                                 B(Path="./sub", Type="-"), B(Numb="1", Path="./sub/"),
+                                                 B(Type="X", Path="./zeta.txt"), B(Type="-", Path="./zeta.txt")]})
     sc("hide-then-title", {".Links": [B(Type="X", Path="./fred")], ".names": [B(Path="./fred", Name="Fred again")]})
     sc("hide-then-number-same-file", {".names": [B(Path="./zeta.txt", Type="X"), B(Numb="1", Path="./zeta.txt")]})
     sc("title-then-hide", {".Links": [B(Path="./fred", Name="Fred")], ".names": [B(Type="X", Path="./fred")]})
+    sc("hide-and-curated-link", {".names": [B(Type="X", Path="./fred")],
+                                 ".Links": [B(Name="Fred, curated", Type="0", Path="/d/fred", Host="+", Port="+")]})
+    sc("two-files-one-field", {".Links": [B(Path="./b.txt", Name="From Links", Numb="2")],
+                               ".names": [B(Path="./b.txt", Name="From names")]})
+    sc("indented-as-in-the-manual", {".names": [dict(B(Type="X", Path="./fred"), indent=" "),
+                                                 dict(B(Path="./b.txt", Name="New Long Cool Name", Numb="2",
+                                                        Abstract=["first", "second"]), indent="\t")]})
     sc("relative-here", {".Links": [B(Name="Inner", Type="0", Path="sub/inner.txt", Host="+", Port="+"),
                                     B(Name="Up", Type="1", Path="../other", Port="+"),
                                     B(Name="Plain", Type="0", Path="notes/x.txt"),
@@ -155,7 +177,6 @@ def expected_menu(sc, mode):
     mi = MODES.index(mode)
     base = "" if sc["dir"] == "/" else sc["dir"]
     entries = []
-    gplus = set()
     for n in sc["names"]:
         ty = FILES[n][0]
         sel = base + "/" + n
@@ -163,8 +184,7 @@ def expected_menu(sc, mode):
         if n in sc["sidecars"]:
             ab = "\n".join(x.rstrip() for x in sc["sidecars"][n].splitlines(True)) or None
         entries.append({"selector": sel, "type": ty, "name": FILES[n][1 + mi], "host": None, "port": None, "num": None,
-                        "abstract": ab})
-        gplus.add(sel)
+                        "abstract": ab, "dir": True})
     hidden = set()      # selectors hidden so far: by a .cap file or by a link block; hidden stays hidden
     for n, b in sc["caps"].items():
         if n in sc["names"]:
@@ -174,7 +194,7 @@ def expected_menu(sc, mode):
         entries = c08gen.spec_apply(entries, base, sc["linkfiles"][lf], hidden)
     keys = [c08gen.spec_key(e) for e in entries]
     ties = len(set(keys)) != len(keys)
-    return c08gen.spec_menu(c08gen.spec_order(entries), HOST, PORT, gplus), ties
+    return c08gen.spec_menu(c08gen.spec_order(entries), HOST, PORT), ties
 
 
 def chunks(menu):
@@ -256,11 +276,13 @@ def run(tier):
     scenarios = dedicated()
     for k in range(60 if thorough else 22):
         scenarios.append(gen_menu_tree(rng, ["/d", "/"][k % 2]))
-    mjobs = [{"op": "c08_menu", "tree": sc["tree"], "dir": sc["dir"], "modes": MODES, "config": CONFIG}
-             for sc in scenarios]
+    mjobs = [{"op": "c08_menu", "tree": sc["tree"], "dir": sc["dir"], "modes": MODES, "config": CONFIG,
+              "orders": ["natural", "reversed", "rotated"]} for sc in scenarios]
     mres = impl_run_parallel(mjobs, chunks=10)
     umnlib.check_ok(mres)
     mcases = []
+    mcmeta = []
+    reported = set()
     lcases = []
     mmeta = []
     menu_diffs = 0
@@ -273,42 +295,57 @@ def run(tier):
                                "dir": sc["dir"], "extstrip": mode}, tag="c08-menu-hangs")
                 continue
             world = run_["world"]
-            menu_b = run_["menu"].encode("latin-1")
-            menu = menu_b.decode("utf-8", "surrogateescape")
             names = [c["name"] for c in world["children"]]
-            idx = [names.index(n) for n in run_["enum"]]
-            mcases.append("(%s, (%s, %s), %s, (%s, %s), %s)" % (
-                umnlib.cq_world(world), cq_alts(run_["ignorepatt"]), umnlib.STRIP[mode], cq_natlist(idx),
-                coq_str(HOST), cq_z(PORT), coq_str(menu)))
             lcases.append(umnlib.listing_case(run_, "umn"))
             mmeta.append((sc, mode))
-            chk.count((json.dumps(sc["tree"], sort_keys=True), mode), nontrivial=bool(sc["linkfiles"] or sc["caps"]))
-            # oracle: the reference reading of the same files
             want, ties = expected_menu(sc, mode)
-            got = menu
-            same = (sorted(chunks(want)) == sorted(chunks(got))) if ties else (want == got)
-            if not same:
-                menu_diffs += 1
+            menus = {}
+            for x in run_["runs"]:
+                menu = x["menu"].encode("latin-1").decode("utf-8", "surrogateescape")
+                menus[x["order"]] = menu
+                idx = [names.index(n) for n in x["enum"]]
+                mcases.append("(%s, (%s, %s), %s, (%s, %s), %s)" % (
+                    umnlib.cq_world(world), cq_alts(run_["ignorepatt"]), umnlib.STRIP[mode], cq_natlist(idx),
+                    coq_str(HOST), cq_z(PORT), coq_str(menu) if menu else "(@nil N)"))
+                mcmeta.append((sc, mode))
+                chk.count((json.dumps(sc["tree"], sort_keys=True), mode, x["order"]),
+                          nontrivial=bool(sc["linkfiles"] or sc["caps"]))
+                # oracle: the reference reading of the same files
+                got = menu
+                same = (sorted(chunks(want)) == sorted(chunks(got))) if ties else (want == got)
+                if not same:
+                    menu_diffs += 1
+                    found = True
+                    feats = sc["features"]
+                    if "cap-hidden-relisted" in feats:
+                        tag = "c08-cap-hidden-relisted"
+                    elif "double-hide" in feats:
+                        tag = "c08-double-hide-raises"
+                    elif "hide-missing" in feats:
+                        tag = "c08-hide-missing-entry"
+                    elif "dash" in feats and "numb-reset" not in feats:
+                        tag = "c08-linkfile-dash-not-hidden"
+                    elif "numb-reset" in feats and "dash" not in feats:
+                        tag = "c08-numb-reset"
+                    elif feats:
+                        tag = "c08-linkfile-dash-not-hidden+c08-numb-reset"
+                    else:
+                        tag = "c08-menu-differs"
+                    if (tag, sc.get("label", id(sc)), mode) not in reported:
+                        reported.add((tag, sc.get("label", id(sc)), mode))
+                        chk.violation({"what": "the Gopher menu differs from the documented reading of the link / .cap / abstract files",
+                                       "scenario": sc.get("label", "generated"), "dir": sc["dir"], "extstrip": mode,
+                                       "tree": sc["tree"], "expected_menu": want, "real_menu": got,
+                                       "features": sorted(feats), "enumeration": x["enum"]}, tag=tag)
+            # the menu must not depend on the order in which the OS enumerates the directory
+            if not ties and len(set(menus.values())) > 1:
                 found = True
-                feats = sc["features"]
-                if "cap-hidden-relisted" in feats:
-                    tag = "c08-cap-hidden-relisted"
-                elif "double-hide" in feats:
-                    tag = "c08-double-hide-raises"
-                elif "hide-missing" in feats:
-                    tag = "c08-hide-missing-entry"
-                elif "dash" in feats and "numb-reset" not in feats:
-                    tag = "c08-linkfile-dash-not-hidden"
-                elif "numb-reset" in feats and "dash" not in feats:
-                    tag = "c08-numb-reset"
-                elif feats:
-                    tag = "c08-linkfile-dash-not-hidden+c08-numb-reset"
-                else:
-                    tag = "c08-menu-differs"
-                chk.violation({"what": "the Gopher menu differs from the documented reading of the link / .cap / abstract files",
-                               "scenario": sc.get("label", "generated"), "dir": sc["dir"], "extstrip": mode,
-                               "tree": sc["tree"], "expected_menu": want, "real_menu": got,
-                               "features": sorted(feats), "enumeration": run_["enum"]}, tag=tag)
+                o1 = run_["runs"][0]
+                o2 = [x for x in run_["runs"] if menus[x["order"]] != menus[o1["order"]]][0]
+                chk.violation({"what": "the Gopher menu of a directory with link files depends on the enumeration order",
+                               "scenario": sc.get("label", "generated"), "dir": sc["dir"], "extstrip": mode, "tree": sc["tree"],
+                               "enumeration_a": o1["enum"], "menu_a": menus[o1["order"]],
+                               "enumeration_b": o2["enum"], "menu_b": menus[o2["order"]]}, tag="c08-enum-order")
     mism_m, err_m, nsh_m = coq_eval("C08", "k_menu", "Lib.Str Lib.Regex Model.DirEntry Model.UMN Model.Dir Corr.K07 Corr.K08",
                                     "chk_menu the_fx", mcases, shard=6, pre=pre)
     mism_l, err_l, nsh_l = coq_eval("C08", "k_mlisting", "Lib.Str Lib.Regex Model.DirEntry Model.UMN Model.Dir Corr.K07",
@@ -322,13 +359,14 @@ def run(tier):
         "mismatch_samples": {
             "parse": [{"dir": pmeta[i][0], "cap": pmeta[i][1]["cap"], "text_latin1": pmeta[i][1]["text"],
                        "real": pmeta[i][2].get("exc") or pmeta[i][2]["entries"]} for i in mism_p[:4]],
-            "menu": [{"scenario": mmeta[i][0].get("label", "generated"), "mode": mmeta[i][1], "tree": mmeta[i][0]["tree"]}
-                     for i in (mism_m + mism_l)[:4]]},
+            "menu": [{"scenario": m[0].get("label", "generated"), "mode": m[1], "tree": m[0]["tree"]}
+                     for m in ([mcmeta[i] for i in mism_m[:3]] + [mmeta[i] for i in mism_l[:3]])]},
     }
     cov["oracle"] = {"menus_vs_reference_reading": len(mcases), "menu_differences": menu_diffs,
                      "well_formed_files_raising": bad_wf}
     chk.sample({"kind": "parse", "text": pmeta[0][1]["text"][:200], "real": pmeta[0][2].get("exc") or pmeta[0][2]["entries"][:1]})
-    chk.sample({"kind": "menu", "scenario": scenarios[6].get("label"), "menu": mres[6]["res"]["nonencoded"].get("menu", "")[:300]})
+    chk.sample({"kind": "menu", "scenario": scenarios[6].get("label"),
+                "menu": mres[6]["res"]["nonencoded"]["runs"][0]["menu"][:300]})
     broken = any([mism_p, mism_s, mism_m, mism_l, err_p, err_s, err_m, err_l])
     if broken:
         chk.correspondence_broken("K08 (link-file parser / sidecar abstracts / menus)", cov["correspondence"], found)
@@ -346,6 +384,10 @@ def run(tier):
         "link files and sidecars small enough for one readlines(20480) batch",
         "the reference reading takes link files in name order and treats a hide block for a file that is not listed as a no-op "
         "(the manual is silent on both)",
+        "Host=+ / Port=+ are read as 'no host / port of its own' (the protocol fills in this server's): an override block "
+        "with Port=+ does not reset a port that an EARLIER block or the .cap file gave the entry — the manual's 'the server "
+        "will insert the current hostname and the current port' could also be read as a reset; model, UMNSpec and twin follow "
+        "the code here and the difference is only reachable when two blocks give one file conflicting ports/hosts",
         "display names under extstrip are taken from a hand-written table for the file names the generator uses",
     ]
     return chk.finish("proof")
